@@ -29,6 +29,9 @@ CLAIMED = {
  "C09": dict(engine="E1", design="§5 C09", technique="bounded exhaustive product over reference shapes; Referenced ⊆ Defined computed from the parsed output",
      text="Full product of 6 target kinds × serde(rename) on target × 13 reference positions (fields, containers, generic arguments, payloads, struct-variant fields, alias targets, self reference, generic-parameter positions) × serde(rename) on the referrer × 6 languages × 2 prefix configurations; every non-primitive name in a type tree, variant parent clause or Inner reference must be a definition of the same output, and every item must be defined as prefix + renamed name.",
      note="Names recognised as target primitives/builtins/helper vocabulary are not treated as user references (helpers are C12's)."),
+ "C10": dict(engine="E1", design="§5 C10", technique="deviation-bounded exhaustive enumeration of feature subsets over a baseline program; per-language acceptors, CPython ast + import under a stub pydantic for Python",
+     text="A baseline with one item of every kind plus every subset of ≤ 2 (quick) / ≤ 3 (thorough, ≈20k programs) features from a 50-entry menu (generics, dashed/keyword/digit renames, optional forms, empty items, decorators, redaction, type overrides, docs, keyword tag keys, header/package/prefix settings, consts, recursion, nested modules) × 6 languages. Each output must be accepted by the language's recursive-descent acceptor; Python output is additionally parsed by CPython and executed under a stub pydantic in one batch.",
+     note="The acceptors reject only what is certainly invalid for the declaration subset typeshare emits; they are not full grammars (no tsc/kotlinc/swiftc/scalac/go installed). Keyword escaping is judged only where promised (Swift, Python)."),
  "C11": dict(engine="E1", design="§5 C11", technique="exhaustive enumeration of labelled digraphs rendered as programs; permutation and topological-order oracle on the recovered definition order",
      text="Every labelled digraph with self loops on ≤ 3 nodes × 11 edge carriers, × every node-kind assignment (struct, two enum forms, alias, const) × serde-renamed node; every digraph on 4 nodes (acyclic only in quick; all 65 536 × 4 carriers in thorough); seven parametric families up to 12 nodes under every rotation of the labeling; for the five backends sharing the ordering.",
      note="Graphs with 5+ nodes only from the named families."),
